@@ -150,6 +150,26 @@ def bfsOrdered (g : TGraph) : Bool :=
   (List.range g.elems.length).all fun j =>
     j == 0 || (List.range j).any fun i => (refsAtT g i).contains j
 
+/-! ## numbering a heap graph with text values (the same traversal as for binary values) -/
+
+/-- `elements` of `export_kv2`, as locations of the heap graph `h`. -/
+def tnumber (h : TGraph) (root : Nat) : List Nat := numberOn (refsAtT h) h.elems.length root
+
+def trelabelVal (ord : List Nat) : TVal → TVal
+  | .ref (.idx k) => .ref (.idx (posOf ord k))
+  | v => v
+
+def trelabelElem (ord : List Nat) (e : TElem) : TElem :=
+  { e with attrs := e.attrs.map fun a => { a with vals := a.vals.map (trelabelVal ord) } }
+
+/-- the indexed text graph that is written. -/
+def tindexed (h : TGraph) (root : Nat) : TGraph :=
+  let ord := tnumber h root
+  { elems := ord.filterMap fun loc => (h.elems[loc]?).map (trelabelElem ord) }
+
+def theapClosed (h : TGraph) : Bool :=
+  h.elems.all fun e => e.refs.all fun k => decide (k < h.elems.length)
+
 /-! ## sessions: a call's result depends on its argument only
 
 The model has no state: every export / parse is a function of its argument.  A *session* is a list
